@@ -1,7 +1,8 @@
 (* C13R_Plane.v -- the Gaussian PSF models integrate to `flux` over the whole plane
    (iterated improper Riemann integrals, C13R_Model.is_plane_integral), WITHOUT polar
    coordinates: the sections are one-dimensional Gaussians (C13R_GaussInt.gauss1_integral),
-   for the rotated elliptical model after completing the square. *)
+   for the rotated elliptical model after completing the square.  Further sections: erf and
+   the PRF classes as pixel integrals of the PSF classes; MoffatPSF with beta = 2. *)
 From Coq Require Import Reals Lra.
 Set Warnings "-ambiguous-paths".
 From Coquelicot Require Import Coquelicot.
@@ -548,4 +549,289 @@ Proof.
   intros Hx Hy.
   apply (is_plane_integral_RInt_gen (fun x y => gaussian_psf x y flux x_0 y_0 xf yf theta)).
   apply gaussian_psf_plane_integral; assumption.
+Qed.
+
+(* ================================================================== *)
+(* MoffatPSF with the default power index beta = 2: Cartesian           *)
+(* normalisation over the plane (rational integrand, atan)              *)
+(* ================================================================== *)
+Lemma atan_lim_p : is_lim atan p_infty (PI / 2).
+Proof.
+  intros P [eps HP]. assert (Pp := PI_RGT_0).
+  set (d := Rmin (eps / 2) (PI / 2)).
+  assert (Hd : 0 < d) by (apply Rmin_pos; [generalize (cond_pos eps); lra | lra]).
+  assert (Hd1 : d <= eps / 2) by apply Rmin_l. assert (Hd2 : d <= PI / 2) by apply Rmin_r.
+  exists (tan (PI / 2 - d)). intros x Hx. apply HP.
+  assert (A : PI / 2 - d < atan x).
+  { rewrite <- (atan_tan (PI / 2 - d)) by lra. apply atan_increasing, Hx. }
+  assert (B := atan_bound x).
+  unfold ball; simpl. unfold AbsRing_ball, abs, minus, plus, opp; simpl.
+  apply Rabs_def1; generalize (cond_pos eps); lra.
+Qed.
+
+Lemma atan_lim_m : is_lim atan m_infty (- (PI / 2)).
+Proof.
+  apply (is_lim_ext (fun x => - atan (- x))).
+  { intro x. rewrite atan_opp. ring. }
+  apply (is_lim_opp (fun x => atan (- x)) m_infty (PI / 2)).
+  intros P HP. destruct (atan_lim_p P HP) as [M HM].
+  exists (- M). intros x Hx. apply HM. lra.
+Qed.
+
+(* int dx / (s^2 + (x-m)^2)^2 = pi / (2 s^3) *)
+Definition rat2 (s m x : R) : R := / ((s ^ 2 + (x - m) ^ 2) ^ 2).
+Definition rat2_prim (s m x : R) : R :=
+  (x - m) / (2 * s ^ 2 * (s ^ 2 + (x - m) ^ 2)) + atan ((x - m) / s) / (2 * s ^ 3).
+
+Lemma rat2_den_pos s m x : 0 < s -> 0 < s ^ 2 + (x - m) ^ 2.
+Proof. intro Hs. assert (0 < s ^ 2) by (apply pow_lt; exact Hs). generalize (pow2_ge_0 (x - m)). lra. Qed.
+
+Lemma rat2_prim_derive s m x : 0 < s -> is_derive (rat2_prim s m) x (rat2 s m x).
+Proof.
+  intro Hs. assert (D := rat2_den_pos s m x Hs). assert (S2 : 0 < s ^ 2) by (apply pow_lt; exact Hs).
+  unfold rat2_prim, rat2. auto_derive.
+  - repeat split; try lra. simpl in *. nra.
+  - unfold Rsqr. simpl in *. field. repeat split; nra.
+Qed.
+
+Lemma rat2_continuous s m x : 0 < s -> continuous (rat2 s m) x.
+Proof.
+  intro Hs. assert (D := rat2_den_pos s m x Hs).
+  apply (ex_derive_continuous (rat2 s m)). unfold rat2. auto_derive. simpl in *. nra.
+Qed.
+
+Lemma rat2_prim_lim_p s m : 0 < s -> is_lim (rat2_prim s m) p_infty (PI / (4 * s ^ 3)).
+Proof.
+  intro Hs. assert (S2 : 0 < s ^ 2) by (apply pow_lt; exact Hs).
+  assert (S3 : 0 < s ^ 3) by (apply pow_lt; exact Hs).
+  unfold rat2_prim.
+  replace (Finite (PI / (4 * s ^ 3))) with (Rbar_plus (Finite 0) (Finite (PI / 2 / (2 * s ^ 3))))
+    by (simpl; f_equal; field; lra).
+  apply (is_lim_plus (fun x => (x - m) / (2 * s ^ 2 * (s ^ 2 + (x - m) ^ 2)))
+                     (fun x => atan ((x - m) / s) / (2 * s ^ 3)) p_infty 0 (PI / 2 / (2 * s ^ 3))).
+  - (* rational part -> 0 *)
+    intros P [eps HP].
+    exists (m + 1 + / (2 * s ^ 2 * eps)). intros x Hx. apply HP.
+    assert (E := cond_pos eps).
+    assert (Hk : 0 < 2 * s ^ 2 * eps) by (apply Rmult_lt_0_compat; [lra | exact E]).
+    assert (I : 0 < / (2 * s ^ 2 * eps)) by (apply Rinv_0_lt_compat; exact Hk).
+    assert (X : 0 < x - m) by lra.
+    assert (D := rat2_den_pos s m x Hs).
+    assert (Dn : 0 < 2 * s ^ 2 * (s ^ 2 + (x - m) ^ 2)) by (apply Rmult_lt_0_compat; lra).
+    assert (T0 : 0 < (x - m) / (2 * s ^ 2 * (s ^ 2 + (x - m) ^ 2)))
+      by (apply Rdiv_lt_0_compat; assumption).
+    assert (T1 : (x - m) / (2 * s ^ 2 * (s ^ 2 + (x - m) ^ 2)) < eps).
+    { apply (Rmult_lt_reg_r (2 * s ^ 2 * (s ^ 2 + (x - m) ^ 2))); [exact Dn|].
+      replace ((x - m) / (2 * s ^ 2 * (s ^ 2 + (x - m) ^ 2)) * (2 * s ^ 2 * (s ^ 2 + (x - m) ^ 2)))
+        with (x - m) by (field; split; lra).
+      assert (K : / (2 * s ^ 2 * eps) < x - m) by lra.
+      apply (Rmult_lt_compat_l (2 * s ^ 2 * eps)) in K; [|exact Hk].
+      rewrite Rinv_r in K by lra.
+      (* 1 < k (x-m), k = 2 s^2 eps  ==>  x-m < k (x-m)^2 <= eps * (2 s^2 (s^2+(x-m)^2)) *)
+      set (k := 2 * s ^ 2 * eps) in *. set (t := x - m) in *.
+      assert (A1 : t < k * t * t).
+      { replace t with (1 * t) at 1 by ring. rewrite (Rmult_assoc k).
+        rewrite <- (Rmult_assoc k t t). apply Rmult_lt_compat_r; assumption. }
+      assert (A2 : k * t * t <= eps * (2 * s ^ 2 * (s ^ 2 + t ^ 2))).
+      { replace (eps * (2 * s ^ 2 * (s ^ 2 + t ^ 2)))
+          with (k * t * t + k * s ^ 2) by (unfold k; ring).
+        assert (0 <= k * s ^ 2) by (apply Rmult_le_pos; lra). lra. }
+      lra. }
+    unfold ball; simpl. unfold AbsRing_ball, abs, minus, plus, opp; simpl.
+    simpl in T0, T1. apply Rabs_def1; lra.
+  - apply (is_lim_ext (fun x => / (2 * s ^ 3) * atan ((x - m) / s))).
+    { intro x. unfold Rdiv. ring. }
+    replace (Finite (PI / 2 / (2 * s ^ 3))) with (Rbar_mult (/ (2 * s ^ 3)) (Finite (PI / 2)))
+      by (simpl; f_equal; field; lra).
+    apply (is_lim_scal_l (fun x => atan ((x - m) / s))).
+    intros P HP. destruct (atan_lim_p P HP) as [M HM].
+    exists (M * s + m). intros x Hx. apply HM.
+    apply (Rmult_lt_reg_r s); [exact Hs|].
+    replace ((x - m) / s * s) with (x - m) by (field; lra). lra.
+  - reflexivity.
+Qed.
+
+Lemma rat2_prim_reflect s m x : rat2_prim s m (2 * m - x) = - rat2_prim s m x.
+Proof.
+  unfold rat2_prim.
+  replace (2 * m - x - m) with (- (x - m)) by ring.
+  replace (- (x - m) / s) with (- ((x - m) / s)) by (unfold Rdiv; ring).
+  rewrite atan_opp. replace ((- (x - m)) ^ 2) with ((x - m) ^ 2) by ring.
+  unfold Rdiv. ring.
+Qed.
+
+Lemma rat2_prim_lim_m s m : 0 < s -> is_lim (rat2_prim s m) m_infty (- (PI / (4 * s ^ 3))).
+Proof.
+  intro Hs.
+  apply (is_lim_ext (fun x => - rat2_prim s m (2 * m - x))).
+  { intro x. rewrite rat2_prim_reflect. ring. }
+  apply (is_lim_opp (fun x => rat2_prim s m (2 * m - x)) m_infty (PI / (4 * s ^ 3))).
+  intros P HP. destruct (rat2_prim_lim_p s m Hs P HP) as [M HM].
+  exists (2 * m - M). intros x Hx. apply HM. lra.
+Qed.
+
+Lemma rat2_integral s m :
+  0 < s ->
+  is_RInt_gen (rat2 s m) (Rbar_locally m_infty) (Rbar_locally p_infty) (PI / (2 * s ^ 3)).
+Proof.
+  intro Hs. assert (S3 : 0 < s ^ 3) by (apply pow_lt; exact Hs).
+  replace (PI / (2 * s ^ 3)) with (PI / (4 * s ^ 3) - - (PI / (4 * s ^ 3))) by (field; lra).
+  apply (is_RInt_gen_prim (rat2 s m) (rat2_prim s m)).
+  - intro x. apply rat2_prim_derive, Hs.
+  - intro x. apply rat2_continuous, Hs.
+  - apply rat2_prim_lim_m, Hs.
+  - apply rat2_prim_lim_p, Hs.
+Qed.
+
+(* int dy / (a^2 + (y-m)^2)^(3/2) = 2 / a^2 *)
+Definition r3 (a m y : R) : R := / ((a ^ 2 + (y - m) ^ 2) * sqrt (a ^ 2 + (y - m) ^ 2)).
+Definition r3_prim (a m y : R) : R := (y - m) / (a ^ 2 * sqrt (a ^ 2 + (y - m) ^ 2)).
+
+Lemma r3_prim_derive a m y : 0 < a -> is_derive (r3_prim a m) y (r3 a m y).
+Proof.
+  intro Ha. assert (D := rat2_den_pos a m y Ha). assert (A2 : 0 < a ^ 2) by (apply pow_lt; exact Ha).
+  assert (W := sqrt_lt_R0 _ D). assert (WW := sqrt_sqrt _ (Rlt_le _ _ D)).
+  unfold r3_prim, r3. auto_derive.
+  - replace (y + - m) with (y - m) by ring. simpl in *.
+    split; [exact D|]. split; [|exact I]. apply Rgt_not_eq, Rmult_lt_0_compat; assumption.
+  - replace (y + - m) with (y - m) by ring. simpl in *.
+    set (w := sqrt (a * (a * 1) + (y - m) * ((y - m) * 1))) in *.
+    set (t := y - m) in *.
+    replace (a * (a * 1) + t * (t * 1)) with (w * w) by exact WW.
+    assert (E : t * t = w * w - a * a) by lra.
+    field_simplify_eq; [|repeat split; lra].
+    replace (t ^ 2) with (t * t) by ring. rewrite E. ring.
+Qed.
+
+Lemma r3_continuous a m y : 0 < a -> continuous (r3 a m) y.
+Proof.
+  intro Ha. assert (D := rat2_den_pos a m y Ha). assert (W := sqrt_lt_R0 _ D).
+  apply (ex_derive_continuous (r3 a m)). unfold r3. auto_derive.
+  replace (y + - m) with (y - m) by ring. simpl in *.
+  split; [exact D|]. split; [|exact I]. apply Rgt_not_eq, Rmult_lt_0_compat; assumption.
+Qed.
+
+Lemma r3_prim_lim_p a m : 0 < a -> is_lim (r3_prim a m) p_infty (/ a ^ 2).
+Proof.
+  intro Ha. assert (A2 : 0 < a ^ 2) by (apply pow_lt; exact Ha).
+  unfold r3_prim.
+  apply (is_lim_ext (fun y => / a ^ 2 * ((y - m) / sqrt (a ^ 2 + (y - m) ^ 2)))).
+  { intro y. assert (D := rat2_den_pos a m y Ha). assert (W := sqrt_lt_R0 _ D). field. lra. }
+  replace (Finite (/ a ^ 2)) with (Rbar_mult (/ a ^ 2) (Finite 1)) by (simpl; f_equal; ring).
+  apply (is_lim_scal_l (fun y => (y - m) / sqrt (a ^ 2 + (y - m) ^ 2))).
+  intros P [eps HP]. assert (E := cond_pos eps).
+  exists (m + a / eps). intros y Hy. apply HP.
+  assert (Q : 0 < a / eps) by (apply Rdiv_lt_0_compat; assumption).
+  set (t := y - m). assert (T : a / eps < t) by (unfold t; lra).
+  assert (T0 : 0 < t) by lra.
+  assert (D : 0 < a ^ 2 + t ^ 2) by (apply (rat2_den_pos a m y Ha)).
+  set (w := sqrt (a ^ 2 + t ^ 2)). assert (W : 0 < w) by (apply sqrt_lt_R0, D).
+  (* t < w <= t + a *)
+  assert (L1 : t < w).
+  { unfold w. rewrite <- (sqrt_pow2 t) at 1 by lra. apply sqrt_lt_1_alt. split; [apply pow2_ge_0 | lra]. }
+  assert (L2 : w <= t + a).
+  { unfold w. rewrite <- (sqrt_pow2 (t + a)) by lra. apply sqrt_le_1_alt.
+    assert (0 <= 2 * t * a) by (apply Rmult_le_pos; lra).
+    replace ((t + a) ^ 2) with (a ^ 2 + t ^ 2 + 2 * t * a) by ring. lra. }
+  (* eps t > a *)
+  assert (L3 : a < eps * t).
+  { apply (Rmult_lt_compat_l eps) in T; [|exact E].
+    replace (eps * (a / eps)) with a in T by (field; lra). exact T. }
+  assert (U1 : t / w < 1).
+  { apply (Rmult_lt_reg_r w); [exact W|]. replace (t / w * w) with t by (field; lra). lra. }
+  assert (U2 : 1 - eps < t / w).
+  { apply (Rmult_lt_reg_r w); [exact W|]. replace (t / w * w) with t by (field; lra).
+    destruct (Rle_or_lt 1 eps) as [G|G].
+    - assert ((1 - eps) * w <= 0); [|lra].
+      replace 0 with (0 * w) by ring. apply Rmult_le_compat_r; lra.
+    - apply Rle_lt_trans with ((1 - eps) * (t + a)).
+      + apply Rmult_le_compat_l; lra.
+      + assert (eps * a > 0) by (apply Rmult_lt_0_compat; assumption).
+        replace ((1 - eps) * (t + a)) with (t + a - eps * t - eps * a) by ring. lra. }
+  unfold ball; simpl. unfold AbsRing_ball, abs, minus, plus, opp; simpl.
+  fold t. change (sqrt (a * (a * 1) + t * (t * 1))) with w.
+  apply Rabs_def1; lra.
+Qed.
+
+Lemma r3_prim_reflect a m y : r3_prim a m (2 * m - y) = - r3_prim a m y.
+Proof.
+  unfold r3_prim. replace (2 * m - y - m) with (- (y - m)) by ring.
+  replace ((- (y - m)) ^ 2) with ((y - m) ^ 2) by ring. unfold Rdiv. ring.
+Qed.
+
+Lemma r3_prim_lim_m a m : 0 < a -> is_lim (r3_prim a m) m_infty (- / a ^ 2).
+Proof.
+  intro Ha.
+  apply (is_lim_ext (fun y => - r3_prim a m (2 * m - y))).
+  { intro y. rewrite r3_prim_reflect. ring. }
+  apply (is_lim_opp (fun y => r3_prim a m (2 * m - y)) m_infty (/ a ^ 2)).
+  intros P HP. destruct (r3_prim_lim_p a m Ha P HP) as [M HM].
+  exists (2 * m - M). intros y Hy. apply HM. lra.
+Qed.
+
+Lemma r3_integral a m :
+  0 < a -> is_RInt_gen (r3 a m) (Rbar_locally m_infty) (Rbar_locally p_infty) (2 / a ^ 2).
+Proof.
+  intro Ha. assert (A2 : 0 < a ^ 2) by (apply pow_lt; exact Ha).
+  replace (2 / a ^ 2) with (/ a ^ 2 - - / a ^ 2) by (field; lra).
+  apply (is_RInt_gen_prim (r3 a m) (r3_prim a m)).
+  - intro y. apply r3_prim_derive, Ha.
+  - intro y. apply r3_continuous, Ha.
+  - apply r3_prim_lim_m, Ha.
+  - apply r3_prim_lim_p, Ha.
+Qed.
+
+Lemma scal_R (a b : R) : scal a b = a * b.
+Proof. reflexivity. Qed.
+
+(* MoffatPSF, beta = 2 *)
+Lemma Rpower_m2 b e : 0 < b -> e = 2 -> Rpower b (- e) = / (b ^ 2).
+Proof.
+  intros Hb He. unfold Rpower.
+  replace (- e * ln b) with (- (ln b + ln b)) by (rewrite He; ring).
+  rewrite exp_Ropp, exp_plus, exp_ln by exact Hb. f_equal. ring.
+Qed.
+
+Lemma moffat2_is_rat2 x y flux x_0 y_0 alpha :
+  0 < alpha ->
+  moffat_psf x y flux x_0 y_0 alpha 2
+  = flux * alpha ^ 2 / PI * rat2 (sqrt (alpha ^ 2 + (y - y_0) ^ 2)) x_0 x.
+Proof.
+  intro Ha. assert (A2 : 0 < alpha ^ 2) by (apply pow_lt; exact Ha).
+  assert (D := rat2_den_pos alpha y_0 y Ha). assert (Dx := pow2_ge_0 (x - x_0)).
+  unfold moffat_psf, rat2. cbv zeta.
+  assert (B : 0 < 1 + ((x - x_0) ^ 2 + (y - y_0) ^ 2) / alpha ^ 2).
+  { assert (0 <= ((x - x_0) ^ 2 + (y - y_0) ^ 2) / alpha ^ 2); [|lra].
+    apply Rmult_le_pos; [generalize (pow2_ge_0 (y - y_0)); lra | left; apply Rinv_0_lt_compat, A2]. }
+  rewrite (Rpower_m2 _ 2 B eq_refl).
+  rewrite pow2_sqrt by lra. field. repeat split; try lra. generalize PI_RGT_0; lra.
+Qed.
+
+Lemma moffat2_plane_integral flux x_0 y_0 alpha :
+  0 < alpha ->
+  is_plane_integral (fun x y => moffat_psf x y flux x_0 y_0 alpha 2) flux.
+Proof.
+  intro Ha. assert (A2 : 0 < alpha ^ 2) by (apply pow_lt; exact Ha). assert (Pp := PI_RGT_0).
+  set (K := flux * alpha ^ 2 / PI).
+  exists (fun y => K * (PI / 2) * r3 alpha y_0 y). split.
+  - intro y. assert (D := rat2_den_pos alpha y_0 y Ha). assert (W := sqrt_lt_R0 _ D).
+    apply (is_RInt_gen_ext (fun x => scal K (rat2 (sqrt (alpha ^ 2 + (y - y_0) ^ 2)) x_0 x))).
+    { apply filter_forall. intros ab x _. rewrite moffat2_is_rat2 by exact Ha. reflexivity. }
+    replace (K * (PI / 2) * r3 alpha y_0 y)
+      with (scal K (PI / (2 * sqrt (alpha ^ 2 + (y - y_0) ^ 2) ^ 3))).
+    + apply (is_RInt_gen_scal (rat2 (sqrt (alpha ^ 2 + (y - y_0) ^ 2)) x_0)).
+      apply rat2_integral, W.
+    + rewrite scal_R. unfold r3.
+      set (w := sqrt (alpha ^ 2 + (y - y_0) ^ 2)) in *.
+      assert (WW : w * w = alpha ^ 2 + (y - y_0) ^ 2) by (apply sqrt_sqrt; lra).
+      rewrite <- WW.
+      assert (X : K * (PI / (2 * w ^ 3)) = K * (PI / 2) * / (w * w * w)) by (field; lra).
+      exact X.
+  - apply (is_RInt_gen_ext (fun y => scal (K * (PI / 2)) (r3 alpha y_0 y))).
+    { apply filter_forall. intros ab y _. reflexivity. }
+    replace flux with (scal (K * (PI / 2)) (2 / alpha ^ 2)) at 1.
+    + apply (is_RInt_gen_scal (r3 alpha y_0)). apply r3_integral, Ha.
+    + rewrite scal_R.
+      assert (X : flux * alpha ^ 2 / PI * (PI / 2) * (2 / alpha ^ 2) = flux) by (field; split; lra).
+      exact X.
 Qed.
